@@ -45,6 +45,11 @@ PALETTE = {
     "sizeof_paren_expr": ("int a = sizeof(b) + 2;", "u.c", {"buffer"}, {"buffer"}),
     "fail_complit_open": ("int a = (int){1;", "v.c", {"buffer", "scopes"}, {"buffer", "scopes"}),
     "paren_expr_first": ("int a = (b) + 1;", "w.c", {"buffer"}, {"buffer"}),
+    # failures inside a block that has declared a name; later programs use that name as the other kind in their first block
+    "fail_in_block_local_typedef": ("void f(void) { typedef int LT; LT x; @", "x.c", {"scopes", "typedefs", "buffer"}, {"scopes"}),
+    "LT_is_an_object": ("int LT; void g(void) { LT * 2; }", "y.c", {"typedefs", "buffer"}, {"typedefs", "scopes"}),
+    "fail_in_block_local_object": ("typedef int GT; void f(int GT) { GT = 1; { int V; (", "z.c", {"scopes", "typedefs", "buffer"}, {"scopes"}),
+    "GT_V_are_types": ("typedef int GT; typedef int V; void g(void) { GT * p; { V * q; } }", "aa.c", {"typedefs", "buffer"}, {"typedefs", "scopes"}),
 }
 COMPONENTS = {"scopes", "typedefs", "pending", "file", "line", "buffer"}
 
